@@ -52,6 +52,9 @@ def gen_case(seed, tier="quick"):
     if be == "ak" and rng.random() < 0.4 and not as_record:
         shape = ["jag"]
         n = 3
+    elif be == "ak" and rng.random() < 0.25 and not as_record:
+        shape = ["opt"]
+        n = 3
     hz = rng.random() < 0.15
     cols = {g: [C.value(rng, g, hz and rng.random() < 0.2) for _ in range(n)] for g in gnames}
     nsteps = rng.choice((1, 2, 4, 6, 10)) if tier == "quick" else rng.choice((2, 4, 8, 16, 24))
@@ -61,7 +64,7 @@ def gen_case(seed, tier="quick"):
     if be in ("obj", "sym"):
         kinds += ["set", "set", "iop"]
     if be == "np":
-        kinds += ["setcol", "setrows", "setmask", "getrow"]
+        kinds += ["setcol", "setrows", "setmask", "getrow", "reshape"]
     if be in ("ak", "akraw"):
         kinds += ["field"]
     for _ in range(nsteps):
@@ -95,6 +98,8 @@ def gen_case(seed, tier="quick"):
                 st["kwg"][tmp_g] = v
                 st["kwm"][tmp_m] = v
             steps.append(st)
+        elif k == "reshape":
+            steps.append({"s": "reshape", "how": rng.choice(("flat", "col", "T", "rev"))})
         elif k == "close":
             # closeness predicates against a *slightly* different partner (tolerance formulas matter there)
             st_c = {"s": "op", "name": rng.choice(("close:isclose", "close:allclose", "close:np.isclose", "close:np.allclose")),
@@ -106,7 +111,11 @@ def gen_case(seed, tier="quick"):
             name = rng.choice(("unit", "add", "subtract", "scale", "dot", "deltaphi", "rotateZ", "equal", "isclose", "neg2D", "to_Vector2D", "to_Vector3D", "to_Vector4D",
                                "py:abs", "py:neg", "py:pow", "py:mul", "py:truediv", "py:eq", "np:absolute", "np:square", "np:sqrt", "np:cbrt", "np:power", "np:negative",
                                "np:add", "np:subtract", "np:matmul", "np:sum", "np:count_nonzero", "np:isclose", "np:allclose", "ak:sum", "ak:count",
-                               "mixed:add", "mixed:subtract", "mixed:dot", "mixed:deltaphi", "mixed:isclose"))
+                               "mixed:add", "mixed:subtract", "mixed:dot", "mixed:deltaphi", "mixed:isclose",
+                               "xflavor:add", "xflavor:subtract", "xflavor:dot", "xflavor:isclose", "xflavor:equal", "xflavor:deltaphi", "xflavor:like"))
+            if name.startswith("xflavor:"):
+                steps.append({"s": "op", "name": name})
+                continue
             if rng.random() < 0.12:
                 # closeness predicates against a *slightly* different partner (tolerance formulas matter there)
                 st_c = {"s": "op", "name": rng.choice(("close:isclose", "close:allclose", "close:np.isclose", "close:np.allclose")),
@@ -215,9 +224,9 @@ def _build(vector, case, names, mom):
         return cls(rows, dtype=dt)
     n = len(cols[gn[0]])
     recs = [{nm: cols[g][i] for nm, g in zip(names, gn)} for i in range(n)]
-    data = [recs[:2], [], recs[2:]] if shape == ["jag"] else recs
+    data = [recs[:2], [], recs[2:]] if shape == ["jag"] else ([recs[0], None, recs[2]] if shape == ["opt"] else recs)
     if be == "ak":
-        if how == "a" or shape == ["jag"]:
+        if how == "a" or shape in (["jag"], ["opt"]):
             return vector.Array(data)
         if how == "b":
             return vector.zip({nm: [cols[g][i] for i in range(n)] for nm, g in zip(names, gn)})
@@ -426,6 +435,16 @@ def run_case(case, vector):
                             rg, rm = twin_call(i, lambda: getattr(Gv, fn_)(g2[1], **st["kw"]), lambda: getattr(Mv, fn_)(m2[1], **st["kw"]))
                         _both(i, st, rg, rm, viol, be, f"{name} eps={st['eps']} {st['kw']}")
                     continue
+                if kind_ == "xflavor":
+                    # the *other* operand has the other flavor: numbers must not depend on which side is the momentum one
+                    rg, rm = twin_call(i, lambda: getattr(Gv, fn_)(Mv), lambda: getattr(Mv, fn_)(Gv))
+                    if rg[0] == rm[0] == "ok" and fn_ in ("subtract",):
+                        pass  # a - b with the flavors exchanged is the same number on both sides (a and b hold equal coordinates)
+                    _both(i, st, rg, rm, viol, be, name)
+                    rgg = _call(lambda: getattr(Gv, fn_)(Gv))
+                    if rg[0] == "ok" and rgg[0] == "ok" and not _same(rg[1], rgg[1]):
+                        viol.append(_viol("flavor-changes-number", i, st, f"{name}: generic.{fn_}(momentum) {_short(rg[1])} vs generic.{fn_}(generic) {_short(rgg[1])}", be))
+                    continue
                 if kind_ == "mixed":
                     # the partner is a single vector *object* (another backend) built in both spellings
                     wg = vector.obj(**{g: st["w"][g] for g in gn})
@@ -520,6 +539,13 @@ def run_case(case, vector):
             if _both(i, st, rg, rm, viol, be, f".{g} vs .{m}"):
                 if rmg[0] != "ok" or not _exact(rmg[1], rm[1]):
                     viol.append(_viol("synonym-differs-from-geometric", i, st, f".{m} {_short(rm[1])} vs .{g} {_short(rmg[1])}", be))
+        elif s == "reshape":
+            # later steps (name / synonym indexing, assignment) then work on a reshaped / transposed / reversed view
+            f = {"flat": lambda x: x.reshape(-1), "col": lambda x: x.reshape(-1, 1), "T": lambda x: x.T, "rev": lambda x: x[::-1]}[st["how"]]
+            rg, rm = twin_call(i, lambda: f(Gv), lambda: f(Mv))
+            if _both(i, st, rg, rm, viol, be, "reshape:" + st["how"]):
+                Gv, Mv = rg[1], rm[1]
+                case["shape"] = list(Gv.shape)
         elif s == "getrow":
             idx = tuple(st["i"]) if isinstance(st["i"], list) else st["i"]
             rg, rm = twin_call(i, lambda: Gv[idx], lambda: Mv[idx])
